@@ -15,6 +15,8 @@
 package jobs
 
 import (
+	"context"
+	"errors"
 	"fmt"
 	"os"
 	"sync"
@@ -131,6 +133,11 @@ func (j *job) Run() {
 		"job.state", "Running",
 		"job.jobType", jobType)
 	processed, err := j.pipeline.sync(j, ticket.runState.ctx)
+	if err != nil && errors.Is(err, context.Canceled) && ticket.runState.ctx.Err() != nil {
+		// the kill reached a source (union, multi, proxy and http sources give up with the context's error) before
+		// the pipeline's own check at the next batch: it is the same interrupt, and no failure to re-run
+		err = errors.New("got job interrupt")
+	}
 	pipelineErr = err
 	timed := time.Since(ticket.runState.started)
 	if err != nil {
